@@ -582,21 +582,33 @@ theorem LB.isInf_false_of_fin {lb : LB D} (h : LBfin lb) : LB.isInf lb = false :
     | fin x => rfl
     | inf => exact absurd rfl h
 
-theorem performDive_spec (hC : C.candidates.Nodup) : ∀ (fuel nid : Nat) (st sd : St α D),
-    performDive asn C (cvrs.filterMap id) (nebTable asn C cvrs) fuel nid st = Res.ok sd →
+/-- what a dive returns: never an exception; "audit not possible" comes with a witness order; otherwise
+`DiveOut` -/
+def DiveRes (st : St α D) (nid : Nat) (res : Res (St α D)) : Prop :=
+  match res with
+  | Res.ok sd => (LB.isInf sd.lb = true → BadLeaf asn C cvrs winner) ∧
+      (LB.isInf sd.lb = false → DiveOut asn C cvrs winner st nid sd)
+  | Res.fuel => True
+  | Res.err _ => False
+
+theorem performDive_spec (hC : C.candidates.Nodup) : ∀ (fuel nid : Nat) (st : St α D) (res : Res (St α D)),
+    performDive asn C (cvrs.filterMap id) (nebTable asn C cvrs) fuel nid st = res →
     nid < st.store.size → StoreOK asn C cvrs winner st.store → FInv asn C cvrs winner st →
-    (st.store.get nid).expandable = true →
-    (LB.isInf sd.lb = true → BadLeaf asn C cvrs winner) ∧
-    (LB.isInf sd.lb = false → DiveOut asn C cvrs winner st nid sd) := by
+    (st.store.get nid).expandable = true → DiveRes asn C cvrs winner st nid res := by
   intro fuel
   induction fuel with
-  | zero => intro nid st sd h; simp [performDive] at h
+  | zero => intro nid st res h _ _ _ _; simp only [performDive] at h; subst h; trivial
   | succ fuel ih =>
-    intro nid st sd h hnid hok hF hexp
+    intro nid st res h hnid hok hF hexp
     rw [performDive] at h
     simp only at h
     split at h
-    · cases h
+    · rename_i hrem
+      exfalso
+      obtain ⟨c, hc, hct⟩ := exists_not_mem_of_length_lt (t := (st.store.get nid).tail) hC
+        ((hok nid hnid).expLen hexp)
+      have : c ∈ notIn C (st.store.get nid).tail := mem_notIn.2 ⟨hc, hct⟩
+      rw [hrem] at this; cases this
     · rename_i c0 rest hrem
       -- names for the pieces of the step
       generalize hnext : nextCand C.outcome c0 rest = next at h
@@ -690,7 +702,7 @@ theorem performDive_spec (hC : C.candidates.Nodup) : ∀ (fuel nid : Nat) (st sd
           cases r1 with
           | true =>
             simp only [if_true] at h
-            cases h
+            subst h
             exact ⟨fun _ => hbad rfl, fun hinf => by simp [LB.isInf, Diff.isInf] at hinf⟩
           | false =>
             simp only [Bool.false_eq_true, if_false] at h
@@ -711,7 +723,7 @@ theorem performDive_spec (hC : C.candidates.Nodup) : ∀ (fuel nid : Nat) (st sd
             cases r2 with
             | true =>
               simp only [if_true] at h
-              cases h
+              subst h
               refine ⟨fun hinf => ?_, fun _ => ?_⟩
               · rw [LB.isInf_false_of_fin m2.lbFin] at hinf; cases hinf
               refine ⟨next, hnc, hnt, by rw [m1']; exact hok1, m2, m3, hsc_all, hsc_thru,
@@ -726,8 +738,13 @@ theorem performDive_spec (hC : C.candidates.Nodup) : ∀ (fuel nid : Nat) (st sd
                 cases hx : (Store.get s1 st.store.size).expandable with
                 | true => rfl
                 | false => rw [hx] at this; cases this
-              obtain ⟨ihbad, ihgood⟩ :=
-                ih st.store.size st2 sd h (by rw [m1']; exact hidlt) (by rw [m1']; exact hok1) m2 hexp_new
+              have ihres :=
+                ih st.store.size st2 res h (by rw [m1']; exact hidlt) (by rw [m1']; exact hok1) m2 hexp_new
+              cases res with
+              | fuel => trivial
+              | err e => exact ihres
+              | ok sd =>
+              obtain ⟨ihbad, ihgood⟩ := ihres
               refine ⟨ihbad, fun hinf => ?_⟩
               obtain ⟨next', _, _, d1, d2, d3, d4, d5, d6, d7, d8⟩ := ihgood hinf
               refine ⟨next, hnc, hnt, d1, d2, LB.le_trans m3 d3, fun π hsc => d4 π (hsc_all π hsc),
@@ -918,29 +935,58 @@ theorem inv_of_step (hC : C.candidates.Nodup) {st st2 : St α D} {te : Nat} {res
 def ExitState (st : St α D) : Prop :=
   Inv asn C cvrs winner st ∧ ∃ te rest, st.fr = te :: rest ∧ (st.store.get te).expandable = false
 
-/-- what the main loop returns: an exit state, or "audit not possible" with a witness order -/
-def LoopOut (r : Option (St α D)) : Prop :=
-  match r with
-  | some st' => ExitState asn C cvrs winner st'
-  | none => BadLeaf asn C cvrs winner
+/-- what the main loop returns: never an exception; an exit state, or "audit not possible" with a
+witness order -/
+def LoopOut (res : Res (Option (St α D))) : Prop :=
+  match res with
+  | Res.ok (some st') => ExitState asn C cvrs winner st'
+  | Res.ok none => BadLeaf asn C cvrs winner
+  | Res.fuel => True
+  | Res.err _ => False
 
-theorem mainLoop_spec (hC : C.candidates.Nodup) : ∀ (fuel : Nat) (st : St α D) (r : Option (St α D)),
-    mainLoop asn C (cvrs.filterMap id) (nebTable asn C cvrs) fuel st = Res.ok r →
+/-- some alternative order exists when there are at least two candidates -/
+theorem exists_alt (hC : C.candidates.Nodup) (hn : 2 ≤ C.candidates.length) :
+    ∃ π, Alt C.candidates winner π := by
+  obtain ⟨c, hc, hcw⟩ : ∃ c ∈ C.candidates, c ≠ winner := by
+    cases hcs : C.candidates with
+    | nil => rw [hcs] at hn; simp at hn
+    | cons a l =>
+      cases l with
+      | nil => rw [hcs] at hn; simp at hn
+      | cons b l' =>
+        by_cases ha : a = winner
+        · refine ⟨b, by simp, ?_⟩
+          intro hb
+          rw [hcs] at hC
+          have := (List.nodup_cons.1 hC).1
+          apply this
+          rw [ha, ← hb]; simp
+        · exact ⟨a, by simp, ha⟩
+  refine ⟨C.candidates.erase c ++ [c], ?_, C.candidates.erase c, c, rfl, hcw⟩
+  exact List.perm_append_comm.trans (List.perm_cons_erase hc).symm
+
+theorem mainLoop_spec (hC : C.candidates.Nodup) (hn : 2 ≤ C.candidates.length) :
+    ∀ (fuel : Nat) (st : St α D) (r : Res (Option (St α D))),
+    mainLoop asn C (cvrs.filterMap id) (nebTable asn C cvrs) fuel st = r →
     Inv asn C cvrs winner st → LoopOut asn C cvrs winner r := by
   intro fuel
   induction fuel with
-  | zero => intro st r h; simp [mainLoop] at h
+  | zero => intro st r h _; simp only [mainLoop] at h; subst h; trivial
   | succ fuel ih =>
     intro st r h hI
     rw [mainLoop] at h
     split at h
-    · cases h
+    · rename_i hfr
+      exfalso
+      obtain ⟨π, hπ⟩ := exists_alt C winner hC hn
+      obtain ⟨w, hw, _⟩ := hI.cover π hπ
+      rw [hfr] at hw; cases hw
     · rename_i te rest hfr
       simp only at h
       split at h
       · -- exit: the first frontier node is not expandable
         rename_i hne
-        cases h
+        subst h
         exact ⟨hI, te, rest, hfr, by simpa using hne⟩
       · rename_i hne
         have hexp : (st.store.get te).expandable = true := by simpa using hne
@@ -961,7 +1007,7 @@ theorem mainLoop_spec (hC : C.candidates.Nodup) : ∀ (fuel : Nat) (st : St α D
               then Res.ok none
               else mainLoop asn C (cvrs.filterMap id) (nebTable asn C cvrs) fuel
                 (expandLoop asn C (cvrs.filterMap id) (nebTable asn C cvrs) te C.candidates st1).2)
-              = Res.ok r →
+              = r →
             LoopOut asn C cvrs winner r := by
           intro st1 hte1 hok1 hF1 htail1 hexp1 hsc1 hexpl hnle hrun
           cases hr : expandLoop asn C (cvrs.filterMap id) (nebTable asn C cvrs) te C.candidates st1 with
@@ -971,7 +1017,7 @@ theorem mainLoop_spec (hC : C.candidates.Nodup) : ∀ (fuel : Nat) (st : St α D
               hte1 hok1 hF1 (fun c hc => hc) hexp1
             cases r1 with
             | true =>
-              simp only [if_true, Res.ok.injEq] at hrun
+              simp only [if_true] at hrun
               subst hrun
               exact ebad rfl
             | false =>
@@ -1001,15 +1047,18 @@ theorem mainLoop_spec (hC : C.candidates.Nodup) : ∀ (fuel : Nat) (st : St α D
           split at h
           · -- dive first
             rename_i hdn
+            have hdres := performDive_spec asn C cvrs winner hC (C.candidates.length + 1) te
+              ({ st with fr := rest } : St α D) _ rfl hte hI.ok hF0 hexp
             split at h
-            · cases h
-            · cases h
+            · subst h; trivial
+            · rename_i e hdive
+              rw [hdive] at hdres; exact hdres.elim
             · rename_i sd hdive
-              obtain ⟨dbad, dgood⟩ := performDive_spec asn C cvrs winner hC _ te ({ st with fr := rest } : St α D)
-                sd hdive hte hI.ok hF0 hexp
+              rw [hdive] at hdres
+              obtain ⟨dbad, dgood⟩ := hdres
               split at h
               · rename_i hinf
-                cases h
+                subst h
                 exact dbad hinf
               · rename_i hinf
                 have hinf' : LB.isInf sd.lb = false := by simpa using hinf
